@@ -81,7 +81,56 @@ func c15Worlds(seed int64, n int) []*spec.World {
 		a.Features = append(a.Features, "two_files")
 		out = append(out, a)
 	}
+	for i := 0; i < 1+n/6; i++ {
+		out = append(out, depWorld(gen.Mix(uint64(seed), uint64(i)+15900), fmt.Sprintf("wc15d%02d", i)))
+	}
 	return out
+}
+
+// depWorld is the second world family: three files of ONE proto and Go package - common
+// types (an unwrap wrapper, a flattened discriminated oneof, plain messages) and two
+// service files that import them. Generating a service file alone (the others only
+// present as dependencies) must give the same bytes as generating everything together.
+func depWorld(seed uint64, name string) *spec.World {
+	pkg := name + ".v1"
+	gp := "verifworld/" + name + "/pb;pb"
+	fq := func(n string) string { return "." + pkg + "." + n }
+	sp := func(s string) *string { return &s }
+	types := &spec.File{Path: name + "/types.proto", Package: pkg, GoPackage: gp, Messages: []*spec.Message{
+		{Name: "Item", Fields: []*spec.Field{{Name: "label", Number: 1, Kind: "string"}, {Name: "qty", Number: 2, Kind: "int64"}}},
+		{Name: "Note", Fields: []*spec.Field{{Name: "text", Number: 1, Kind: "string"}}},
+		{Name: "ItemList", Fields: []*spec.Field{{Name: "items", Number: 1, Kind: "message", TypeName: fq("Item"), Card: "repeated", Unwrap: true}}},
+		{Name: "Event", Oneofs: []*spec.Oneof{{Name: "body", HasConfig: true, Discriminator: "kind", Flatten: true}}, Fields: []*spec.Field{
+			{Name: "id", Number: 1, Kind: "string"},
+			{Name: "note_v", Number: 2, Kind: "message", TypeName: fq("Note"), Oneof: "body", OneofValue: sp("note")},
+			{Name: "item_v", Number: 3, Kind: "message", TypeName: fq("Item"), Oneof: "body", OneofValue: sp("item")}}},
+		{Name: "Big", Fields: []*spec.Field{{Name: "n", Number: 1, Kind: "int64", Int64Encoding: "NUMBER"}}},
+	}}
+	mk := func(file, svc, base string, verbs []string) *spec.File {
+		f := &spec.File{Path: name + "/" + file, Package: pkg, GoPackage: gp, Imports: []string{name + "/types.proto"}}
+		s := &spec.Service{Name: svc, BasePath: sp(base), Headers: []*spec.Header{{Name: "X-Api-Key", Required: true}, {Name: "X-Trace", Required: seed%2 == 0}}}
+		for i, v := range verbs {
+			mn := []string{"Sync", "Load", "Store"}[i%3]
+			req := &spec.Message{Name: svc + mn + "Request", Fields: []*spec.Field{
+				{Name: "by_account", Number: 1, Kind: "message", TypeName: fq("ItemList"), Card: "map", MapKey: "string"},
+				{Name: "event", Number: 2, Kind: "message", TypeName: fq("Event")},
+				{Name: "big", Number: 3, Kind: "message", TypeName: fq("Big")}}}
+			resp := &spec.Message{Name: svc + mn + "Response", Fields: []*spec.Field{
+				{Name: "event", Number: 1, Kind: "message", TypeName: fq("Event")},
+				{Name: "groups", Number: 2, Kind: "message", TypeName: fq("ItemList"), Card: "map", MapKey: "string"}}}
+			f.Messages = append(f.Messages, req, resp)
+			m := &spec.Method{Name: mn, In: fq(req.Name), Out: fq(resp.Name), HasConfig: true, Verb: v, Path: "/" + strings.ToLower(mn)}
+			if i == 0 {
+				m.Headers = []*spec.Header{{Name: "x-api-key", Type: "string", Format: "uuid", Required: seed%3 != 0}}
+			}
+			s.Methods = append(s.Methods, m)
+		}
+		f.Services = []*spec.Service{s}
+		return f
+	}
+	a := mk("audit.proto", "AuditService", "/audit", []string{"POST", "PUT"})
+	b := mk("feed.proto", "FeedService", "/feed", []string{"POST", "PATCH", "POST"}[:2+int(seed%2)])
+	return &spec.World{Name: name, Files: []*spec.File{types, a, b}, Mock: true, Features: []string{"dependent_files", "same_package"}}
 }
 
 func extraFile() *descriptorpb.FileDescriptorProto {
@@ -185,6 +234,22 @@ func compareResults(want, got *world.PluginResult, subset bool) (string, string)
 	return "", ""
 }
 
+// missingFor reports a file the all-together run emitted for source proto path src that
+// the single-file run of src did not emit (attribution by the generated-name prefix).
+func missingFor(src string, canon, single *world.PluginResult) string {
+	base := strings.TrimSuffix(filepath.Base(src), ".proto")
+	for _, name := range canon.Order {
+		b := filepath.Base(name)
+		if !strings.HasPrefix(b, base+"_") && !strings.HasPrefix(b, base+".") {
+			continue
+		}
+		if _, ok := single.Files[name]; !ok {
+			return name
+		}
+	}
+	return ""
+}
+
 func firstDiffLines(a, b string) string {
 	al, bl := strings.Split(a, "\n"), strings.Split(b, "\n")
 	for i := 0; i < len(al) && i < len(bl); i++ {
@@ -269,6 +334,27 @@ func (e *c15Env) checkWorld(w *spec.World, mapSeeds int, seed int64) []*c15Findi
 			tup("clock")
 		}
 		// (d) request shapes
+		if len(paths) == 3 {
+			// dependent files: each service file alone (its dependencies present, not generated)
+			// and the types file alone must reproduce the bytes of the all-together run
+			for i := range paths {
+				v := base
+				v.Kind, v.Generate = "single-file", []string{paths[i]}
+				single := e.run(w, v)
+				if f, d := compareResults(single, canon, true); f != "" {
+					report(v, f, "output for "+paths[i]+" changes when the other files are generated in the same invocation: "+d)
+				} else if m := missingFor(paths[i], canon, single); m != "" && single.Error == "" && canon.Error == "" {
+					report(v, m, "generating "+paths[i]+" alone does not emit "+m+", which the same invocation emits when the other files are generated too")
+				}
+				tup(v.Kind)
+			}
+			v := base
+			v.Kind, v.Generate = "permute-generate", []string{paths[2], paths[1], paths[0]}
+			if f, d := compareResults(canon, e.run(w, v), false); f != "" {
+				report(v, f, d)
+			}
+			tup(v.Kind)
+		}
 		if len(paths) == 2 {
 			v := base
 			v.Kind, v.Generate = "permute-generate", []string{paths[1], paths[0]}
@@ -289,6 +375,8 @@ func (e *c15Env) checkWorld(w *spec.World, mapSeeds int, seed int64) []*c15Findi
 				single := e.run(w, v)
 				if f, d := compareResults(single, canon, true); f != "" {
 					report(v, f, "output for "+paths[i]+" changes when the other file is generated in the same invocation: "+d)
+				} else if m := missingFor(paths[i], canon, single); m != "" && single.Error == "" && canon.Error == "" {
+					report(v, m, "generating "+paths[i]+" alone does not emit "+m+", which the same invocation emits when the other file is generated too")
 				}
 				tup(v.Kind)
 				// the other file absent from the request altogether
